@@ -1191,7 +1191,7 @@ class CodeBuilder:
                     name=fname,
                     metadata=metadata,
                 ),
-                could_be_none=False,
+                could_be_none=False if could_be_none else True,
                 no_copy_collections=self.get_dialect_or_config_option(
                     "no_copy_collections", ()
                 ),
